@@ -95,6 +95,10 @@ def run(ctx):
     run_cases(ctx, cases(ctx))
     osuite.run_histories(ctx, 150 if ctx.tier == 'quick' else 1500,
                          lambda name, area, cs, kind, val, obs, state: oracle(ctx, name, area, cs, kind, val, obs, state))
+    # the observation point `functional_observation(state)` on an ENVIRONMENT: the view of the state handed in, also when that state is the
+    # environment's own state object, changed in place after an observation of it was produced
+    from vt.suites import C04
+    C04.functional_is_functional(ctx)
 
 
 def replay(ctx, case):
